@@ -127,7 +127,26 @@ func (x *Exec) heapSelect(st *State, name string, arr, idx *Term) *Term {
 			}
 		}
 	}
-	return Select(arr, idx)
+	sel := Select(arr, idx)
+	if st.stack[idx.S] && arr.Sort.K == KArray && arr.Sort.Idx.K == KInt {
+		// a value loaded from a non-escaping local or a private object: remember it, so that it
+		// survives a callee's havoc like a stored value does (no callee can reach that memory)
+		if st.fwd == nil {
+			st.fwd = map[string]*fwdCache{}
+		}
+		if c := st.fwd[name]; c != nil && c.arr == arr.S {
+			nc := *c
+			nc.ent = make(map[string]*Term, len(c.ent)+1)
+			for k, v := range c.ent {
+				nc.ent[k] = v
+			}
+			nc.ent[idx.S] = sel
+			st.fwd[name] = &nc
+		} else {
+			st.fwd[name] = &fwdCache{arr: arr.S, ent: map[string]*Term{idx.S: sel}}
+		}
+	}
+	return sel
 }
 
 // heapStoreFwd stores v at idx in the named array (which must already exist in st.heap).
